@@ -33,6 +33,12 @@ m = {
   {"name": "dfacts (E1)", "path": "tools/dfacts.cc",
    "serves_properties": [c["property_id"] for c in checks],
    "kind_free_text": "libTooling AST+CFG fact extractor over the compile database of /repo's current tree; rules in Python under verif/"},
+  {"name": "dreach (E2)", "path": "tools/dreach.cc",
+   "serves_properties": [c["property_id"] for c in checks if "E2" in c["engine"]],
+   "kind_free_text": "LLVM-14 based whole-library IR fact extractor: static-storage objects, vtables, call edges, global effects, pointer-as-data instructions"},
+  {"name": "witness TUs (E3)", "path": "verif/ledger.py",
+   "serves_properties": [c["property_id"] for c in checks if "E3" in c["engine"]],
+   "kind_free_text": "generated static_assert translation units compiled with clang++ -fsyntax-only against /repo's headers"},
  ],
  "checks": checks,
  "not_applicable": na,
